@@ -311,4 +311,37 @@ theorem mutex_excl {eb : Int} (heb : eb ≠ 0) {m : MutexImpl} (g : MutexGood m)
   have b := mutex_inv heb g r u hu
   rw [a] at b; injection b
 
+/-! ## several objects: every component of a reachable product state is reachable on its own -/
+
+theorem psReach_proj {p : SpinImpl} {f : Nat → SState} (r : PSReach p f) (i : Nat) : SReach p false (f i) := by
+  induction r generalizing i with
+  | init => exact .init
+  | step _ st ih =>
+    cases st with
+    | on j l s' h =>
+      by_cases hij : i = j
+      · subst hij; simp only [updObj, if_true]; exact .step (ih i) h
+      · simp only [updObj, hij, if_false]; exact ih i
+
+theorem pmReach_proj {eb : Int} {m : MutexImpl} {f : Nat → MState} (r : PMReach eb m f) (i : Nat) : MReach eb m (f i) := by
+  induction r generalizing i with
+  | init => exact .init
+  | step _ st ih =>
+    cases st with
+    | on j l s' h =>
+      by_cases hij : i = j
+      · subst hij; simp only [updObj, if_true]; exact .step (ih i) h
+      · simp only [updObj, hij, if_false]; exact ih i
+
+/-- a step on object `i` leaves every other object untouched -/
+theorem psStep_frame {p : SpinImpl} {f g : Nat → SState} (st : PSStep p f g) :
+    ∃ i, ∀ j, j ≠ i → g j = f j := by
+  cases st with
+  | on i l s' h => exact ⟨i, fun j hj => by simp [updObj, hj]⟩
+
+theorem pmStep_frame {eb : Int} {m : MutexImpl} {f g : Nat → MState} (st : PMStep eb m f g) :
+    ∃ i, ∀ j, j ≠ i → g j = f j := by
+  cases st with
+  | on i l s' h => exact ⟨i, fun j hj => by simp [updObj, hj]⟩
+
 end PV.Locks
